@@ -120,7 +120,13 @@ func execC15(t *testing.T, prog *hx.Program, dec *simrt.Decider, verbose bool) *
 			os.WriteFile(policyPath, []byte(b.String()), 0o644)
 		}
 		writePolicy(uint64(prog.Param("policy", 1)))
+		certFile, keyFile, terr := testTLSFiles(h.dir)
+		if terr != nil {
+			h.oc.Trouble = "tls files: " + terr.Error()
+			return
+		}
 		h.cfgHook = func(n *simNode, c *Config) {
+			c.TLSCert, c.TLSKey = certFile, keyFile
 			c.TLSClientAuthz = true
 			c.TLSClientAuthzModel = modelPath
 			c.TLSClientAuthzPolicy = policyPath
